@@ -1,11 +1,28 @@
 (* C07 -- Totality.  ONLY property theorems here.  The general statement over the whole pipeline is NOT a theorem:
    tree-sitter, the CST->AST layer and the renderer are outside any Gallina model (see DESIGN.md section 8). *)
-From QV Require Import model.Base model.Lang model.Types model.Tir model.Builder model.Passes model.TirCase gen.GenE0 proofs.InterpProofs.
+From QV Require Import model.Base model.Lang model.Types model.Tir model.Builder model.Passes model.TirCase gen.GenE0 proofs.InterpProofs proofs.BuilderSafe.
 
 (* the constant interpreter terminates on EVERY code body, well-formed or not *)
 Theorem C07_interp_total : forall E c, evaluate_code E c <> OutOfFuel.
 Proof. exact evaluate_code_total. Qed.
 Print Assumptions C07_interp_total.
+
+(* the EXPRESSION layer of the translator (model of typedexpr.rs walk_expr driving tir/builder.rs, tied to the code by the Ok / Err / Panic
+   prediction of this check) never panics: for every class environment, every expression -- any nesting of ?:, &&, ||, calls, subscripts,
+   assignments, casts -- and every builder state whose current block is open and in which the locals named by the environment exist.  It
+   stays inside its region of the block list (blocks below the current one are untouched) and leaves the current block open: the region
+   invariant of the block numbering.  Every assert / index / unwrap of builder.rs reached from an expression is thereby shown unreachable. *)
+Theorem C07_expressions_never_panic : forall E env L e s,
+  (forall x l k, lenv_get env x = Some (l, k) -> l < L)%nat -> Good s -> (L <= List.length (bs_locals s))%nat ->
+  match walk_expr E env e s with (P _, _) => False | (_, s') => RegB (nb s) s s' end.
+Proof.
+  intros E env L e s Hw G HL. pose proof (walk_expr_safe E env L Hw e s (nb s) G HL (le_n _)) as H.
+  destruct (walk_expr E env e s) as [[a| |x] s']; tauto.
+Qed.
+Print Assumptions C07_expressions_never_panic.
+(* the initial builder state is such a state *)
+Example C07_initial_state_good : Good bstate0.
+Proof. split; [apply le_n|]. exists block0. split; reflexivity. Qed.
 
 (* the inputs of the repaired findings F14 (interpreter reached unreachable!()) and F18 (empty switch) on the model of
    the repaired code: no Panic anywhere in build + finalize + interpret + dependency analysis *)
